@@ -175,6 +175,18 @@ CHECKS['C14'] = dict(
          'namespace node paths, namespaced names.',
     technique='SMT-based symbolic execution (CrossHair/z3) of node.path / fn:path on enumerated arrangements with symbolic names',
     design='DESIGN.md §4 C14')
+CHECKS['C03'] = dict(
+    text='Evaluation half: every (template, argument-carrier) pair of an enumerated family (21 operator forms and 54 built-in '
+         'functions x 9 carrier pairs: integers, exact decimals and doubles k/4, strings of length <= 2, boolean, empty and two-item '
+         'sequences, ill-typed combinations) is executed symbolically through token.evaluate: returning or raising ElementPathError '
+         'are the only accepted outcomes, any other exception is a counterexample (replayed). Integer/string/boolean carriers are '
+         'exhausted; decimal/double/string-to-number carriers are bug-hunting. Parse half, lexeme bodies only: for every string-literal '
+         'body of length <= 2 (XPath 1.0 and 3.1) parse returns or raises ElementPathError and the same parser instance then parses '
+         'fixed expressions exactly like a fresh instance.',
+    note='Trusted: CrossHair models. Out and stated: arbitrary source strings beyond lexeme bodies (the tokenizer regex is out of reach '
+         'for symbolic text), RecursionError/hangs, documents as context, comment bodies and braced URIs only as bug-hunting.',
+    technique='SMT-based symbolic execution (CrossHair/z3): exception-freedom of enumerated templates on symbolic arguments; symbolic lexeme bodies',
+    design='DESIGN.md §4 C03')
 NOT_APPLICABLE = {
     'C04': 'Quantifies over program syntax and hash seeds: no value domain to make symbolic; symbolic source text does not get through '
            'the tokenizer regex under CrossHair (600 CPU-s, len<=2, no verdict); a table-level z3 check would verify a model of the '
